@@ -219,16 +219,25 @@ def order_rule(fi, loop, pm):
     # the only skip allowed before the append is the empty-slice guard (`X_.shape[0] == 0` / `len(X_) == 0`): any other continue / break in
     # the loop body means that the outputs of some batches are dropped
     k_app = loop.body.index(appends[0])
+    from ..affine import _infeasible, ge as _ge
+    ai_ = AbsInt(fi, int_params={"batch_size"}, ranks={})
     for s_ in loop.body[:k_app]:
         for n_ in walk_no_nested(s_):
             if isinstance(n_, (ast.Continue, ast.Break)):
                 g = pm.get(n_)
                 gt = unparse(g.test) if isinstance(g, ast.If) else ""
-                if not (isinstance(g, ast.If) and any(n_ is b for b in g.body) and
-                        gt.replace(" ", "") in ("X_.shape[0]==0", "len(X_)==0", "0==X_.shape[0]", "X_.shape[0]<1", "X_.numel()==0")):
-                    from ..core import named
-                    return [named("ORDER", fi, role, "a `%s` under `%s` precedes the append: the outputs of those batches are dropped and the rows "
-                                  "no longer line up with the examples" % (type(n_).__name__.lower(), gt[:60]), n_)]
+                sts = ai_.states_at(n_)
+                if not sts:
+                    return [unrecognised("ORDER", fi, role, "a `%s` precedes the append and its path is not analysable" % type(n_).__name__.lower(), n_)]
+                for st in sts:
+                    st = st.copy()
+                    ext = ai_.lin(st, ast.parse("X_.shape[0]", mode="eval").body)
+                    if ext is None:
+                        return [unrecognised("ORDER", fi, role, "a `%s` under `%s` precedes the append" % (type(n_).__name__.lower(), gt[:60]), n_)]
+                    if not _infeasible(list(st.G) + [_ge(ext, 1)]):
+                        from ..core import named
+                        return [named("ORDER", fi, role, "a `%s` under `%s` precedes the append and is reachable with a NON-EMPTY batch: the outputs of those "
+                                      "batches are dropped and the rows no longer line up with the examples" % (type(n_).__name__.lower(), gt[:60]), n_)]
     # what is appended must be the forward output of this iteration
     appended = appends[0].value.args[0] if appends[0].value.args else None
     uses = [n for n in walk_no_nested(fi.node) if isinstance(n, ast.Name) and n.id == acc]
